@@ -118,8 +118,12 @@ class PythonMethodAnalyzer:  # thailint: ignore[srp]
         """
         if isinstance(item, ast.FunctionDef):
             self._check_method(item, class_name)
+            for child in ast.iter_child_nodes(item):
+                self._visit_node(child)
         elif isinstance(item, ast.ClassDef):
             self._process_nested_class(item)
+        else:
+            self._visit_node(item)
 
     def _process_nested_class(self, class_node: ast.ClassDef) -> None:
         """Process a nested class, avoiding duplicates.
